@@ -50,6 +50,42 @@ def natural_runs(pl, res, reps, tag):
     return outs
 
 
+def c09_groups(pl, res, groups, tier, cov, tag):
+    """all behaviours of one input (imposed schedules, module orders, natural hash order in fresh
+    processes) must agree on Ok/Err and on the bytes of every output file"""
+    n_checked = 0
+    nat = natural_runs(pl, res, 2 if tier == "quick" else 4, tag)
+    for key, lst in groups.items():
+        sigs = collections.Counter(outcome_sig(o) for _, o, _ in lst)
+        case0, obs0, kfc = lst[0]
+        n_checked += len(lst)
+        nat_diff = None
+        for run in nat:
+            o = run.get(case0["id"])
+            if o is not None:
+                if outcome_sig(o) not in sigs:
+                    nat_diff = o
+                sigs[outcome_sig(o)] += 1
+                n_checked += 1
+        if len(sigs) > 1:
+            kinds = sorted({s[0] for s in sigs})
+            a = lst[0]
+            b = next((x for x in lst if outcome_sig(x[1]) != outcome_sig(a[1])), None)
+            detail = {"schedules": len(lst), "distinct_outcomes": len(sigs), "kinds": kinds,
+                      "schedule_a": a[0]["sched"], "outcome_a": a[1]["outcome"],
+                      "schedule_b": b[0]["sched"] if b else "natural hash order in a fresh process",
+                      "outcome_b": b[1]["outcome"] if b else (nat_diff or {}).get("outcome")}
+            res.violation(f"the same input gives {len(sigs)} different results over {len(lst)} imposed schedules and "
+                          f"{len(nat)} natural-order process runs ({'Ok and Err' if len(kinds) > 1 else 'different output bytes'})",
+                          payload(a[0], a[1], detail), kfc)
+        if len(res.samples) < 5 and len(lst) > 2:
+            res.sample({"input": case0["input"], "schedules_imposed": [c["sched"] for c, _, _ in lst][:6],
+                        "result": obs0["outcome"], "files": obs0.get("files") and [f["rel"] for f in obs0["files"]]})
+    cov["inputs_" + tag] = len(groups)
+    cov["natural_order_process_runs"] = len(nat)
+    return n_checked
+
+
 def run_graph(pid, tier):
     res = Result(pid, tier)
     pl = Pipeline(tier, module="MC_Graph", cfgs=CFG, name="graph",
@@ -118,38 +154,22 @@ def run_graph(pid, tier):
                         "code": obs["outcome"], "nonterm": obs.get("nonterm")})
 
     if pid == "C09":
-        # natural hash order, fresh processes
-        nat = natural_runs(pl, res, 2 if tier == "quick" else 4, "a")
-        first_by_key = {}
-        for key, lst in groups.items():
-            sigs = collections.Counter(outcome_sig(o) for _, o, _ in lst)
-            case0, obs0, kfc = lst[0]
-            n_checked += len(lst)
-            for run in nat:
-                o = run.get(case0["id"])
-                if o is not None:
-                    sigs[outcome_sig(o)] += 1
-                    n_checked += 1
-            if len(sigs) > 1:
-                kinds = sorted({s[0] for s in sigs})
-                # pick two behaviours that differ
-                a = lst[0]
-                b = next((x for x in lst if outcome_sig(x[1]) != outcome_sig(a[1])), None)
-                detail = {"schedules": len(lst), "distinct_outcomes": len(sigs), "kinds": kinds,
-                          "schedule_a": a[0]["sched"], "outcome_a": a[1]["outcome"],
-                          "schedule_b": b[0]["sched"] if b else "natural order", "outcome_b": b[1]["outcome"] if b else "?"}
-                res.violation(f"the same input gives {len(sigs)} different results over {len(lst)} schedules "
-                              f"({'Ok and Err' if len(kinds) > 1 else 'different output bytes'})",
-                              payload(a[0], a[1], detail), kfc)
-            if len(res.samples) < 5 and len(lst) > 2:
-                res.sample({"input": case0["input"], "schedules_imposed": [c["sched"] for c, _, _ in lst][:6],
-                            "result": obs0["outcome"], "files": obs0.get("files") and [f["rel"] for f in obs0["files"]]})
-        cov["inputs"] = len(groups)
-        cov["natural_order_process_runs"] = len(nat)
+        n_checked += c09_groups(pl, res, groups, tier, cov, "graph")
+        # a second input family: ambiguous names (several definitions of one short name in scope)
+        pl2 = Pipeline(tier, module="MC_Scope", cfgs={"quick": ["MC_Scope_q2.cfg"], "thorough": ["MC_Scope_q1.cfg", "MC_Scope_q2.cfg"]},
+                       name="graph2", replay_flags=["--emit-dir", os.path.join(WORK, "run", f"graph2-{tier}", "emit"), "--sched"])
+        groups2 = collections.defaultdict(list)
+        for case, obs in pl2.pairs():
+            groups2[input_key(case)].append((case, obs, None))
+        n_checked += c09_groups(pl2, res, groups2, tier, cov, "scope")
+        bc = pl2.base_coverage()
+        for k in ("states", "transitions", "traces_validated_against_impl"):
+            cov[k] += bc[k]
+        cov["checker_cmd"] += " ; " + bc["checker_cmd"]
     if sched_miss:
         res.notes.append(f"{sched_miss} behaviours: the unresolved set seen by the code differed from the mirror's in some pass "
                          f"(the hook then falls back to sorted order)")
-    cov.update({"evaluations": n_checked, "distinct_nontrivial": len(groups) if pid == "C09" else n_checked,
+    cov.update({"evaluations": n_checked, "distinct_nontrivial": (cov.get("inputs_graph", 0) + cov.get("inputs_scope", 0)) if pid == "C09" else n_checked,
                 "rule": "every schedule TLC finds for every dependency graph of MC_Graph is imposed on pyxis through the "
                         "cfg(pyxis_verif) hook; C09 compares outcome and output bytes across the schedules of one input "
                         "(and natural hash order in fresh processes); C10 compares the verdict with the declarative oracle",
